@@ -208,11 +208,38 @@ struct heap_buf
    }
 };
 
+// A reader handing out one byte per call: over a buffer_input every peek / rule has to ask for the bytes it reads.
+struct mem_reader
+{
+   const char* p;
+   std::size_t left;
+
+   std::size_t operator()( char* buffer, const std::size_t length )
+   {
+      if( ( length == 0 ) || ( left == 0 ) ) {
+         return 0;
+      }
+      *buffer = *p++;
+      --left;
+      return 1;
+   }
+};
+
+using buf_t = pegtl::buffer_input< mem_reader, pegtl::eol::lf_crlf, std::string, 1 >;
+
 template< typename Peek >
 static void peek_token( std::string& out, const char* b, std::size_t n )
 {
    in_t in( b, b + n, "" );
    const auto t = Peek::peek( in );
+   {
+      // the same peek on a buffer input that has fetched nothing yet: same pair, or the class depends on the input class
+      buf_t bin( "", n + 16, mem_reader{ b, n } );
+      const auto tb = Peek::peek( bin );
+      if( ( tb.size != t.size ) || ( ( t.size != 0 ) && ( tb.data != t.data ) ) ) {
+         out += "~B";
+      }
+   }
    if( t.size == 0 ) {
       // the falsy pair must be { 0, 0 }
       out += ( t.data == 0 ) ? "-" : "-?";
@@ -235,6 +262,13 @@ static void rule_token( std::string& out, const char* b, std::size_t n )
    in_t in( b, b + n, "" );
    const bool r = pegtl::parse< Rule >( in );
    const std::size_t used = in.byte();
+   {
+      buf_t bin( "", n + 16, mem_reader{ b, n } );
+      const bool rb = pegtl::parse< Rule >( bin );
+      if( ( rb != r ) || ( bin.byte() != used ) ) {
+         out += "~B";
+      }
+   }
    if( r ) {
       out += std::to_string( used );
    }
